@@ -179,11 +179,14 @@ func init() {
 		Patterns: []string{pkgServer, pkgCodec},
 		Jobs: func(tier string) []*JobCfg {
 			js := []*JobCfg{noMapOrder(job(pkgCodec, "HarnessC17Tables"))}
+			// every documented name with one letter replaced by 1..3 arbitrary bytes (multi-byte look-alikes included);
+			// listed first: on a tree where name matching has become expensive the all-bytes-arbitrary jobs below use up
+			// the time budget of the check
+			js = append(js, noMapOrder(job(pkgCodec, "HarnessC17Near", 1)), noMapOrder(job(pkgCodec, "HarnessC17Near", 2)), noMapOrder(job(pkgCodec, "HarnessC17Near", 3)))
 			for L := int64(1); L <= 17; L++ {
 				js = append(js, job(pkgCodec, "HarnessC17Name", L))
 			}
-			// every documented name with one letter replaced by 1..3 arbitrary bytes (multi-byte look-alikes included)
-			js = append(js, noMapOrder(job(pkgCodec, "HarnessC17Near", 1)), noMapOrder(job(pkgCodec, "HarnessC17Near", 2)), noMapOrder(job(pkgCodec, "HarnessC17Near", 3)))
+
 			maxN := int64(3)
 			if tier == "thorough" {
 				maxN = 4
